@@ -271,13 +271,24 @@ inductive Action where
   | setWorkflowData | append
 deriving Repr, DecidableEq
 
-/-- scalar-valued facts keyed by (dotted) path; `get_nested(path).or_else(get(path))` -/
+/-- scalar-valued facts keyed by path.  A key `U.x` is field `x` of the object fact `U` (a plain name is the top-level
+fact of that name); a key `~U.x` is the *flat* top-level fact whose name is spelled `U.x` (`facts.add_value("U.x", v)`:
+a `HashMap` key that happens to contain a dot).  Both may be present, with different values. -/
 abbrev Facts := List (String × Val)
 
+/-- the key under which the flat top-level fact spelled like the dotted path `k` is kept -/
+def flatKey (k : String) : String := "~" ++ k
+
+/-- `facts.get_nested(path).or_else(|| facts.get(path))` (src/engine/parallel.rs `evaluate_single_condition`):
+`Facts::get_nested` descends from the object `parts[0]` — the nested field wins — and only when that fails
+(`None`: no such object / no such field) is the whole path tried as one top-level key (`Facts::get`) -/
 def lookup (f : Facts) (k : String) : Option Val :=
   match f.find? (fun p => p.1 == k) with
   | some p => some p.2
-  | none => none
+  | none =>
+    match f.find? (fun p => p.1 == flatKey k) with
+    | some p => some p.2
+    | none => none
 
 /-- the ordering arms of `Operator::evaluate`: both sides through `to_number`, otherwise `false` -/
 def numCmp (p : Int → Int → Bool) (a b : Val) : Bool :=
